@@ -28,7 +28,7 @@ DIMS = dict(
     solver=["A", "B"],
     conset=["basic", "offsets", "grids"],
 )
-POS = ["fresh", "after_query", "after_solve", "after_update", "after_edit", "twice"]
+POS = ["fresh", "after_query", "after_solve", "after_update", "after_edit", "after_method", "twice"]
 
 
 def forbid(a):
@@ -72,14 +72,14 @@ def cases(tier):
     # multi-stage programs (stage alphabet of C12), incl. clones
     for names in (("A", "B"), ("D", "E"), ("C", "G"), ("B", "F", "A"), ("G", "G")):
         for via in ("direct", "clone"):
-            for pos in ("fresh", "after_solve", "after_edit", "after_update"):
+            for pos in ("fresh", "after_solve", "after_edit", "after_update", "after_method"):
                 spec = c12.build(names, [["continuity", 0], ["master_var_par"]], [via] * len(names))
                 out.append(dict(kind="multi", spec=spec, pos=pos, dev=list(names) + [via]))
     # SplineMethod programs (integrator chains), alone and as a sub-stage next to a sampling method
     from ..common import have_networkx
     if have_networkx():
         for meths in (["Spline"], ["Spline", "MS"], ["DC", "Spline"]):
-            for pos in ("fresh", "after_query", "after_solve", "after_edit", "twice"):
+            for pos in ("fresh", "after_query", "after_solve", "after_edit", "after_method", "twice"):
                 out.append(dict(kind="chain", methods=meths, pos=pos, dev=meths))
     return out
 
@@ -151,6 +151,15 @@ def run_case(case):
                     r.st.subject_to(P.apply_rel(P.CONS["x_le"](P.CA, r.pt, d))); d["cons"].append(c)
                 else:
                     ocp.solver("ipopt", hist.SOLVER_OPTS["A"])
+            if pos == "after_method":
+                # the method is replaced after a solve, then save
+                ocp.solve_limited()
+                if d is not None:
+                    d["M"] = d["M"] + 1          # (N stays: per-interval parameter values keep their shape)
+                    r.st.method(P.make_method(d))
+                else:
+                    import rockit
+                    ocp.method(rockit.MultipleShooting(N=2))
             spec_final = None
             if pos == "after_update" and d is None and case["kind"] == "multi":
                 # a parameter of a sub-stage gets a new value after the solve
@@ -235,6 +244,6 @@ def run_case(case):
 
 def describe(tier):
     return dict(
-        rule="program alphabet over %d feature dimensions (methods, integrators, grids incl. localized/free/density, horizon kinds, state shapes, DAE, global/per-interval parameters and variables, scaling, guesses incl. time expressions, solver option sets, constraint sets with offsets and grid options) at <=2 deviations, plus multi-stage programs (direct and cloned; a sub-stage parameter updated after the solve) and SplineMethod programs (alone and as a sub-stage) x save position (before any transcription, after a query, after a solve, after post-transcription set_value/set_initial, after a solve followed by an invalidating edit, save-load twice): what the solver receives from the loaded OCP (rows, objective, start, parameters, solver settings) = from the original after saving = from a fresh OCP; accessor lists and shapes equal and in the same order; updates through the loaded OCP's accessor symbols (after its first solve, and on a second loaded copy before any transcription) have the same effect" % len(DIMS),
-        bound="k<=2 deviations x %s positions" % ("6" if tier == "thorough" else "2-6"),
+        rule="program alphabet over %d feature dimensions (methods, integrators, grids incl. localized/free/density, horizon kinds, state shapes, DAE, global/per-interval parameters and variables, scaling, guesses incl. time expressions, solver option sets, constraint sets with offsets and grid options) at <=2 deviations, plus multi-stage programs (direct and cloned; a sub-stage parameter updated after the solve) and SplineMethod programs (alone and as a sub-stage) x save position (before any transcription, after a query, after a solve, after post-transcription set_value/set_initial, after a solve followed by an invalidating edit, after a solve followed by a change of method, save-load twice): what the solver receives from the loaded OCP (rows, objective, start, parameters, solver settings) = from the original after saving = from a fresh OCP; accessor lists and shapes equal and in the same order; updates through the loaded OCP's accessor symbols (after its first solve, and on a second loaded copy before any transcription) have the same effect" % len(DIMS),
+        bound="k<=2 deviations x %s positions" % ("7" if tier == "thorough" else "2-7"),
         assumptions=["solver spy is 'what the solver receives'", "files are written to a per-case temp dir that is removed"])
